@@ -32,7 +32,7 @@ def run(tier):
     with lib.Scratch("c03") as sc:
         measurer.constants(sc)
         annot.run_mcs(rep, sc, MCS[tier])
-        recipes = annot.usable_recipes(tier)
+        recipes = annot.usable_recipes(tier) + annot.probe_recipes("C03", tier)
         cases = lib.pmap(annot.record_c03, recipes)
         res, info = annot.validate("C03", cases, sc)
         by_id = {c["id"]: c for c in cases}
@@ -46,7 +46,8 @@ def run(tier):
         cov["structures"] = sorted({c["recipe"]["file"] for c in cases})
         cov["exhaustive"] = False
         cov["rule"] = ("corpus structures from tests/ (%d files), each as read, rigidly moved, jittered (sigma 0.02/0.1/0.3 A), "
-                       "thinned of residues / atoms, squashed, and as a two-model structure; every donor-acceptor atom pair "
+                       "thinned of residues / atoms, squashed, and as a two-model structure; plus threshold probes (two residues of a corpus structure, one moved rigidly so "
+                       "that one decision quantity sits at its threshold +- delta); every donor-acceptor atom pair "
                        "of different residues within 4.5 A whose atoms lie on an edge is measured. A case (structure "
                        "variant) is non-trivial when the code reports >= 1 base pair AND the spec finds >= 1 residue pair "
                        "with a demanded (>= 2 certain base-to-base contacts) edge combination; distinct = distinct recipe "
